@@ -29,7 +29,9 @@ def cmd_check(args):
         traceback.print_exc()
         ck.errors.append('pack crashed: ' + traceback.format_exc().splitlines()[-1])
     ck.only, ck.show = args.only, args.show
+    ck.partial = bool(args.only)
     if args.job:
+        ck.partial = True
         ck.jobs = [j for j in ck.jobs if args.job in (j['func_name'] + '#' + j['label'])]
     rc = ck.finish()
     if args.verbose:
